@@ -843,10 +843,11 @@ def run_spec(ctx, spec, label, probe=None):
         elif libpkg != libdir.replace("/", "."):
             fails.append(("library-package", f"libraryPackage {libpkg!r}, but the library (services/*/client.py, gapic_metadata.json: "
                           f"{mfiles[0]}) is emitted as package {libdir.replace('/', '.')!r}"))
-        if static:
-            if idx["errors"]:
-                fails.append(("emitted-source-syntax", f"{idx['errors'][:2]}"))
-        elif not importable:
+        if static and idx["errors"]:
+            fails.append(("emitted-source-syntax", f"{idx['errors'][:2]}"))
+        if not importable:
+            # (also for a library without a namespace part: importable since the C01 fix ecc5587; the static
+            #  observation above only keeps the other clauses observable when the import fails)
             fails.append(("library-package-not-importable", f"libraryPackage {libpkg!r}: {(imp.get('errors') or [])[:2]}"))
         if md.get("protoPackage") != spec["package"]:
             fails.append(("proto-package", f"protoPackage {md.get('protoPackage')!r} for files of package {spec['package']!r}"))
@@ -932,7 +933,16 @@ def run_spec(ctx, spec, label, probe=None):
                         fails.append(("rpc-not-once", f"{s['name']}/{kind}/{rpc_name}: methods {ms}"))
                     for meth in ms:
                         if meth not in names_ or not sig_ok.get((s["name"], kind, rpc_name, meth)):
-                            fails.append((f"method-missing:{kind}", f"{s['name']}/{kind}/{rpc_name}: {client}.{meth} is not an RPC method of the emitted class"))
+                            # the recorded finding, by its trigger AND its symptom: the RPC carries google.cloud.operation_service
+                            # (spec: extop + ext == "op"), gRPC is requested, the kind is grpc-async, and the asyncio client has
+                            # `<method>_unary` but not `<method>` (async_client.py.j2 names the method `<m>_unary` when
+                            # method.operation_service). Any other missing method — another RPC of the same API, another kind,
+                            # `_unary` missing as well, a present method without a request parameter — keeps the unlisted key
+                            m_spec = next((x for x in s["methods"] if x["name"] == rpc_name), None)
+                            known = (kind == "grpc-async" and "grpc" in spec["transport"].split("+") and bool(spec.get("extop"))
+                                     and m_spec is not None and m_spec.get("ext") == "op"
+                                     and meth not in names_ and (meth + "_unary") in names_)
+                            fails.append(("extended-operation-async-method-missing" if known else f"method-missing:{kind}", f"{s['name']}/{kind}/{rpc_name}: {client}.{meth} is not an RPC method of the emitted class"))
         # fix-up table
         keys = [k for k, _ in table]
         if len(set(keys)) != len(keys):
@@ -1058,14 +1068,13 @@ def run_spec(ctx, spec, label, probe=None):
                     kk = {"fixed": "fixup-run:already-fixed", "bare": "fixup-run:foreign-call"}.get(c["style"], "fixup-run:positional" if c["key"] in tdict else "fixup-run:foreign-call")
                     fails.append((kk, f"{src.strip()} was rewritten to {got.strip()}; positional argument i belongs to field i of the required-first declaration order: {want.strip()}"))
         for key, what in fails:
+            # keys are assigned where the failure is found, from the input's shape and the symptom; the name of a corpus
+            # probe never renames a failure
             if probe:
                 ctx.count("excluded_point_failures", f"{probe}:{key}")
-                if probe in PROBE_KEYS and key in PROBE_KEYS[probe][1]:
-                    ctx.fail(PROBE_KEYS[probe][0], f"[{label}] {what}", dict(payload, probe=probe))
-                elif probe in PROBE_KEYS:
-                    ctx.fail(key, f"[{label}] {what}", dict(payload, probe=probe))
-            else:
-                ctx.fail(key, f"[{label}] {what}", payload)
+                if probe in INFORMATIONAL:
+                    continue
+            ctx.fail(key, f"[{label}] {what}", dict(payload, probe=probe) if probe else payload)
         # ------------------------------------------------------------------ T3: model vs emitted artefacts
         emitted_cmp = {k: md.get(k) for k in ("protoPackage", "libraryPackage", "services")}
         if norm_md(emitted_cmp) != norm_md(model_md_dict(mo)):
@@ -1074,7 +1083,7 @@ def run_spec(ctx, spec, label, probe=None):
         model_table = {k: v for k, v in ctx.driver.ask([mi_t])[0]["fixup"]}
         if model_table != tdict:
             ctx.disagree("T3:c15.fixup_table", f"model {json.dumps(model_table, sort_keys=True)[:500]} vs emitted {json.dumps(tdict, sort_keys=True)[:500]}", payload)
-        if not probe:
+        if not (probe and probe in INFORMATIONAL):
             for cname, meths in mo["classes"]:
                 have = model_class_dir.get(cname)
                 if have is None or not set(meths) <= set(have):
@@ -1087,7 +1096,7 @@ def run_spec(ctx, spec, label, probe=None):
 
 # excluded points that lie inside the property's own quantifier: failures are reported under these key prefixes
 INFORMATIONAL = set()    # names of corpus probes outside this property's subject: counted, never reported
-PROBE_KEYS = {"extended_operation_grpc_rest": ("extended-operation-async-method-missing", {"method-missing:grpc-async"})}
+PROBE_KEYS = {"extended_operation_grpc_rest": "extended-operation-async-method-missing"}   # corpus entry -> the finding it replays (documentation; not used to rename failures)
 
 
 def snake_t2(ctx, r, n):
@@ -1147,7 +1156,6 @@ def _run(ctx):
     ctx.assume("one target proto package without sub-packages: service names are pairwise distinct (WF)")
     ctx.assume("RPC names are pairwise distinct up to case/underscores inside a service's snake_case image (two RPCs mapping to one python method name are C12's subject)")
     ctx.assume("no request message has both `x` and `x_` (python-level field names pairwise distinct)")
-    ctx.assume("a library package without a namespace component (proto package `solo.v2`, no namespace option) emits `from .solo_v2 import gapic_version` in its __init__ and is not importable (C01's subject): for such APIs the classes, methods and request fields are read from the emitted source (ast) instead of by introspection, and importability is not demanded")
     ctx.assume("no service whose snake_case name is a Python keyword (`from .services.import import ImportClient`: C12/C01's subject)")
     ctx.assume("exported client class names are pairwise distinct (ClassNamesDistinct): no service `FooAsync` next to a service `Foo` — both would own a class FooAsyncClient (Props.C15.class_name_clash_counterexample; not generated)")
     ctx.assume("extended-operation RPCs (google.cloud.operation_service) are generated with transport=rest only; with gRPC transports the asyncio client only has `<m>_unary` (Props.C15.names_exist_extended_operation_async_counterexample; corpus probe, known finding)")
